@@ -35,6 +35,8 @@ pub enum Arg {
     Noisy(u8),
     /// the top-level directory (first path segment) of entry number i
     FirstSegDir(u8),
+    /// `t/<first segment>/../<path of entry i>`: a `..` that steps back over a real directory, a regular file or a missing name
+    DotDot(u8, u8),
 }
 
 #[derive(Clone, Debug, Serialize, Deserialize, PartialEq, Eq)]
@@ -177,7 +179,14 @@ fn create_tree(root: &Path, tree: &[Entry], feat: &mut Features) {
 
 /// lexical normalisation of an argument (no `..` is ever generated)
 fn clean(arg: &str) -> String {
-    let parts: Vec<&str> = arg.split('/').filter(|s| !s.is_empty() && *s != ".").collect();
+    let mut parts: Vec<&str> = vec![];
+    for seg in arg.split('/').filter(|s| !s.is_empty() && *s != ".") {
+        if seg == ".." && parts.last().map(|p| *p != "..").unwrap_or(false) {
+            parts.pop();
+        } else {
+            parts.push(seg);
+        }
+    }
     if parts.is_empty() {
         ".".to_string()
     } else {
@@ -323,6 +332,14 @@ fn arg_strings(spec: &Spec) -> Vec<String> {
             Arg::EntryPath(i) => spec.tree.get(*i as usize % n).map(|e| format!("t/{}", rel(entry_path(e)))).unwrap_or_else(|| "t".into()),
             Arg::Noisy(i) => spec.tree.get(*i as usize % n).map(|e| format!("t/./{}//", rel(entry_path(e)).replace('/', "//"))).unwrap_or_else(|| "t/.".into()),
             Arg::FirstSegDir(i) => spec.tree.get(*i as usize % n).map(|e| format!("t/{}", rel(&entry_path(e)[..1]))).unwrap_or_else(|| "t".into()),
+            Arg::DotDot(i, via) => {
+                let target = spec.tree.get(*i as usize % n).map(|e| rel(entry_path(e))).unwrap_or_default();
+                let over = match via % 3 {
+                    0 => "nothing-here".to_string(),
+                    _ => spec.tree.get(*via as usize % n).map(|e| rel(&entry_path(e)[..1])).unwrap_or_else(|| "nothing-here".into()),
+                };
+                format!("t/{}/../{}", over, target)
+            }
         })
         .collect()
 }
@@ -438,7 +455,7 @@ impl Property for C18 {
             1 => path_strategy().prop_map(|path| Entry::Dir { path }),
             3 => (path_strategy(), any::<u8>(), proptest::option::weighted(0.2, any::<u8>()), any::<bool>()).prop_map(|(path, to, ancestor, absolute)| Entry::Symlink { path, to, ancestor, absolute }),
         ];
-        let arg = prop_oneof![4 => Just(Arg::Root), 1 => Just(Arg::Dot), 1 => Just(Arg::DotSlashRoot), 2 => any::<u8>().prop_map(Arg::EntryPath), 1 => any::<u8>().prop_map(Arg::Noisy), 2 => any::<u8>().prop_map(Arg::FirstSegDir)];
+        let arg = prop_oneof![4 => Just(Arg::Root), 1 => Just(Arg::Dot), 1 => Just(Arg::DotSlashRoot), 2 => any::<u8>().prop_map(Arg::EntryPath), 1 => any::<u8>().prop_map(Arg::Noisy), 2 => any::<u8>().prop_map(Arg::FirstSegDir), 1 => (any::<u8>(), any::<u8>()).prop_map(|(a, b)| Arg::DotDot(a, b))];
         // scenario: equally named files in two top-level directories, recorded through two arguments with both prefixes stripped
         let collision = (0u8..SEGS.len() as u8, 0u8..SEGS.len() as u8, 0u8..SEGS.len() as u8, any::<u8>(), any::<u8>(), any::<bool>(), any::<bool>()).prop_map(|(d1, d2, name, f1, f2, same_content, one_arg)| {
             let d2 = if d2 == d1 { (d1 + 1) % SEGS.len() as u8 } else { d2 };
@@ -474,7 +491,22 @@ impl Property for C18 {
         let mut feat = Features::default();
         create_tree(&case.join("t"), &spec.tree, &mut feat);
         let args = arg_strings(spec);
-        feat.noisy_arg = spec.args.iter().any(|a| matches!(a, Arg::Noisy(_) | Arg::DotSlashRoot));
+        feat.noisy_arg = spec.args.iter().any(|a| matches!(a, Arg::Noisy(_) | Arg::DotSlashRoot | Arg::DotDot(..)));
+        // a `..` that steps back over a symbolic link is outside the domain (lexical and physical resolution differ)
+        for a in &spec.args {
+            if let Arg::DotDot(_, via) = a {
+                if via % 3 != 0 {
+                    if let Some(e) = spec.tree.get(*via as usize % spec.tree.len().max(1)) {
+                        let over = case.join("t").join(rel(&entry_path(e)[..1]));
+                        if std::fs::symlink_metadata(&over).map(|m| m.file_type().is_symlink()).unwrap_or(false) {
+                            o.class("discarded:dotdot-over-symlink");
+                            let _ = std::fs::remove_dir_all(&case);
+                            return o;
+                        }
+                    }
+                }
+            }
+        }
         feat.file_arg = args.iter().any(|a| std::fs::metadata(case.join(clean(a))).map(|m| m.is_file()).unwrap_or(false));
         let lstrip = lstrip_strings(spec);
         let alg_list: Option<Vec<&str>> = match spec.algs {
